@@ -62,10 +62,64 @@ def _base(r, n=(2, 8), kinds=KW_PROC, p_par=0.6, mon=None, p_async=(0.0, 1e-3, 1
            "knobs": S.gen_knobs(r, mon=mon, p_async_choices=p_async)}
     if include_p and r.random() < include_p:
         S.add_include(r, scn)
+    _maybe_dup_dep(r, scn)
     return scn
 
 
 # ---------------------------------------------------------------------------------------------
+
+def _maybe_dup_dep(r, scn, p=0.03):
+    """the same dependency listed twice, spelled ":name" and "//pkg:name": must be refused"""
+    if r.random() >= p or scn.get("include"):
+        return
+    cands = [(t, d) for t, d in scn["tasks"].items() if not d.get("xg") and not d.get("inc") and d["kind"] != "combine"
+             and any(S.split_tid(x)[0] == S.split_tid(t)[0] for x in d["deps"])]
+    if cands:
+        t, d = r.choice(cands)
+        x = r.choice([x for x in d["deps"] if S.split_tid(x)[0] == S.split_tid(t)[0]])
+        i = d["deps"].index(x)
+        d["rel"][i] = True
+        d["deps"].append(x)
+        d["rel"].append(False)
+        scn["dup_dep"] = t
+
+
+def _cached_chain_scenario(r):
+    """f(cmd) <- m2(exp) <- m1(exp) <- d(cmd); root(deps=[d, f | m2 ...]).  m1 and m2 get cached by a first
+    run, then the root is run while f fails / runs long: ordering and skipping must still see f behind the
+    two cached experiments"""
+    pk = _pkgs(r)
+    nm = r.sample(S.NAMES, 6)
+    P_ = lambda i: S.tid(r.choice(pk), nm[i])
+    f, m2, m1, d, e, root = (P_(i) for i in range(6))
+    tasks = {
+        f: {"kind": "cmd", "deps": [], "rel": [], "par": r.random() < 0.5},
+        m2: {"kind": "exp", "deps": [f], "rel": [False], "par": r.random() < 0.5},
+        m1: {"kind": "exp", "deps": [m2], "rel": [False], "par": r.random() < 0.5},
+        d: {"kind": r.choice(["cmd", "exp"]), "deps": [m1], "rel": [False], "par": r.random() < 0.5},
+        e: {"kind": "cmd", "deps": [r.choice([m2, m1])], "rel": [False], "par": r.random() < 0.5},
+    }
+    rdeps = [d, e] + r.sample([f, m2], r.randint(1, 2))
+    r.shuffle(rdeps)
+    tasks[root] = {"kind": r.choice(["group", "cmd"]), "deps": rdeps, "rel": [False] * len(rdeps)}
+    if tasks[root]["kind"] == "cmd":
+        tasks[root]["par"] = False
+    scn = {"epoch": 1_700_000_000 + r.randrange(10**6), "tasks": tasks, "pkgs": pk, "git": {"mode": "none"},
+           "disable_git": True, "history": [],
+           "knobs": S.gen_knobs(r, mon=None)}
+    first = {"op": "run", "target": r.choice([m1, m1, d]), "flags": {}, "cwd": "", "gap": 0.0, "scripts": {}}
+    second = _run_op(r, tasks, jobs_choices=(None, 2, 3), again_p=0.0, fail_p=0.0, files=False, target=root,
+                     stop_early_p=0.1)
+    c = r.random()
+    if c < 0.6:
+        second["scripts"][f] = [{"steps": [["nop"]] * r.choice([0, 2]), "end": list(r.choice([["exit", 1], ["sig", 9], ["exit", 3]]))}]
+    else:
+        second["scripts"][f] = [{"steps": [["nop"]] * r.choice([5, 20]), "end": ["exit", 0]}]
+    scn["history"] = [first, second]
+    if r.random() < 0.3:
+        scn["history"].insert(1, {"op": "run", "target": e, "flags": {}, "cwd": "", "gap": 1.0, "scripts": {}})
+    return scn
+
 
 def gen_C09(r):
     """many short tasks, every exit instant, bursts, instant exits, stray children, -j 1..8"""
@@ -104,7 +158,7 @@ def gen_C02(r):
                                       target=r.choice(list(scn["tasks"])) if r.random() < 0.5 else None))
     if r.random() < 0.2:
         scn["history"][-1]["flags"]["check"] = True
-    if r.random() < 0.05:
+    if r.random() < 0.05 and "dup_dep" not in scn and not scn.get("include"):
         # the same dependency listed twice, spelled ":name" and "//pkg:name": must be refused
         cands = [(t, d) for t, d in scn["tasks"].items() if not d.get("xg") and d["kind"] != "combine"
                  and any(S.split_tid(x)[0] == S.split_tid(t)[0] for x in d["deps"])]
@@ -166,6 +220,8 @@ def _fanout_scenario(r, stop_early_p=0.7, fail_p=0.45):
 
 
 def gen_C03(r):
+    if r.random() < 0.08:
+        return _cached_chain_scenario(r)
     if r.random() < 0.3:
         return _fanout_scenario(r)
     wide = r.random() < 0.35        # many parallel tasks in flight: completions arrive in batches
@@ -525,7 +581,8 @@ def gen_C12(r):
         op["gap"] = r.choice([1.0, 50.0, 100000.0])
         ops.append(op)
     if "plant" in state:
-        ops.append({"op": "plant", "items": [{"kind": "archive_version_dir", "archive": "A0", "idx": r.randrange(4)}]})
+        ops.append({"op": "plant", "items": [{"kind": "archive_version_dir", "archive": "A0", "idx": r.randrange(4),
+                                              "empty": r.random() < 0.4}]})
     # earlier attempts in the same project: a restore that failed (other corruption) or was killed midway
     for _ in range(r.choice([0, 0, 1, 1, 2])):
         pre = {"op": "restore", "archive": "A0", "cwd": ""}
@@ -575,6 +632,21 @@ def gen_C16(r):
             sc["steps"] = sc["steps"] + [["nop"]] * r.choice([0, 1, 3, 6])
             if r.random() < 0.3:
                 sc["term_delay"] = r.choice([1, 3])
+    if r.random() < 0.3 and not any(o["op"] == "legacy_index" for o in ops):
+        # git-managed project with versions recorded at earlier commits: planning talks to git
+        scn["disable_git"] = False
+        pre = [{"op": "git", "action": "init"}, {"op": "git", "action": "commit", "name": "c0"},
+               _run_op(r, scn["tasks"], jobs_choices=(None, 2), again_p=0.0, files=False, cwds=("",)),
+               {"op": "git", "action": "commit", "name": "c1"}]
+        if r.random() < 0.5:
+            pre += [_run_op(r, scn["tasks"], jobs_choices=(None,), again_p=1.0, files=False, cwds=("",)),
+                    {"op": "git", "action": "commit", "name": "c2"}]
+        ops = pre + [o for o in ops if o["op"] != "run"]
+        op["flags"].pop("again", None)
+        if r.random() < 0.3:
+            op["flags"]["this_commit"] = True
+    if r.random() < 0.1:
+        op["sig_ign"] = ["INT"]
     ops.append(op)
     scn["history"] = ops
     scn["enum"] = {"step": len(ops) - 1, "budget": 120 if _tier() == "quick" else 100000}
@@ -599,6 +671,10 @@ def _stream_script(r):
     sc = {"steps": steps, "end": ["exit", r.choice([0, 0, 0, 0, 3])]}
     if r.random() < 0.3:
         sc["instant_exit"] = True
+    if r.random() < 0.15:
+        st_ = r.choice(["out", "err"])
+        sc["bg"] = {"stream": st_, "steps": [[st_, {"k": "txt", "n": r.choice([5, 300, 9000]), "seed": r.randrange(1 << 30)}]
+                                              for _ in range(r.randint(1, 3))]}
     return sc
 
 
@@ -1058,6 +1134,21 @@ def gen_C09(r):  # noqa: F811
 
 
 def gen_C04(r):  # noqa: F811
+    if r.random() < 0.08:
+        scn = _gen_C04_base(r)
+        pkgs_used = sorted({S.split_tid(t)[0] for t, d in scn["tasks"].items() if d["kind"] in ("exp", "cmd") and not d.get("xg")})
+        if len(pkgs_used) >= 2 and not scn.get("dup_dep"):
+            # one COND file wraps run_experiment / run_command so that its own tasks default to
+            # parallelizable=True; other COND files must not be affected
+            wp = r.choice(pkgs_used)
+            scn["wrap_pkg"] = wp
+            for t, d in scn["tasks"].items():
+                if S.split_tid(t)[0] == wp and d["kind"] in ("exp", "cmd") and not d.get("xg"):
+                    d["par"] = True
+            for o in scn["history"]:
+                if o["op"] == "run" and isinstance(o["flags"].get("jobs"), (int, type(None))) and (o["flags"].get("jobs") or 1) < 2:
+                    o["flags"]["jobs"] = r.choice([2, 3])
+        return scn
     if r.random() < 0.4:
         scn = _fanout_scenario(r, stop_early_p=0.1, fail_p=0.3)
         op = scn["history"][0]
@@ -1083,6 +1174,8 @@ def gen_C04(r):  # noqa: F811
 
 
 def gen_C01(r):  # noqa: F811
+    if r.random() < 0.08:
+        return _cached_chain_scenario(r)
     if r.random() < 0.15:
         return gen_C04(r)
     return _gen_C01_base(r)
